@@ -431,6 +431,16 @@ func (x *G) DeclList(max int) string {
 	var ds []string
 	for i := 0; i < n; i++ {
 		ds = append(ds, x.Decl())
+		if x.chance("junkdecl", 16) {
+			// a malformed declaration: browsers skip to the next semicolon, the rule structure must survive
+			j := x.pick("junk", []string{"*", "!", "$", "&", "+", ".x", "123", "color", "color red", ": red", "*zoom", "$x:1", "#a", "@x", "1px", "a,b", "x:"})
+			if j == "*" && x.guard("noLoneStarDecl") {
+				j = "*zoom"
+				x.Feats["excluded:noLoneStarDecl"]++
+			}
+			ds = append(ds, j)
+			x.Feats["malformed-declaration"]++
+		}
 	}
 	s := strings.Join(ds, x.pick("declsep", []string{";", "; ", ";\n", " ; ", ";;"}))
 	if n > 0 && x.chance("trailingsemi", 2) {
